@@ -88,6 +88,7 @@ type ContractSet struct {
 	SpecOrder []string
 	Lemmas []*Lemma
 	Schema map[string]*SchemaType
+	WireFmts []*SchemaType
 	Files  []string
 }
 
@@ -178,6 +179,21 @@ func (cs *ContractSet) parseFile(path string) error {
 			}
 			cur = &Contract{Name: name, Kind: kw, Loops: map[int]*LoopSpec{}, Tags: tags, File: path, Line: lnos[i], Opts: map[string]string{}}
 			cs.Funcs[name] = cur
+		case "wirefmt":
+			// wirefmt <func> Field:codec ... [Cxx]: a hand-written serialiser func(w *T, msg []byte) (int, error)
+			// must pack exactly these fields of w in this order, starting at offset 0
+			body, tags := splitTags(rest)
+			f := strings.Fields(body)
+			if len(f) < 2 {
+				return fail(fmt.Errorf("wirefmt <func> fields..."))
+			}
+			st, err := parseSchemaLine(f[0]+" 0 "+strings.Join(f[1:], " "), path, lnos[i])
+			if err != nil {
+				return fail(err)
+			}
+			st.Tags = tags
+			cs.WireFmts = append(cs.WireFmts, st)
+			cur = nil
 		case "schema":
 			st, err := parseSchemaLine(rest, path, lnos[i])
 			if err != nil {
